@@ -6,6 +6,8 @@ import (
 	"fmt"
 	"math/bits"
 	"math/rand"
+	"os"
+	"path/filepath"
 	"sort"
 	"strings"
 	"sync"
@@ -30,8 +32,16 @@ func reduce(key *[16]byte, data []byte, F uint64) uint64 {
 
 // elemOf is element number i of a pool: unique, of varying length.
 func elemOf(i uint32) []byte {
+	return elemInto(make([]byte, 18), i)
+}
+
+// elemInto writes element i into buf (cap >= 18) and returns the slice.
+func elemInto(buf []byte, i uint32) []byte {
 	n := 8 + int(i%11)
-	b := make([]byte, n)
+	b := buf[:n]
+	for k := range b {
+		b[k] = 0
+	}
 	binary.LittleEndian.PutUint32(b, i)
 	b[4] = byte(i>>3) ^ 0x5a
 	for k := 8; k < n; k++ {
@@ -118,6 +128,9 @@ func evalGcsTrace(c *vrun.Ctx, label string, cases []*gcsCase) (map[int]tla.Valu
 	var tr bytes.Buffer
 	for _, g := range cases {
 		tr.Write(g.traceLine())
+	}
+	if d := os.Getenv("VERIF_C20_KEEPTRACE"); d != "" { // development aid
+		os.WriteFile(filepath.Join(d, label+".ndjson"), tr.Bytes(), 0o644)
 	}
 	out := make(map[int]tla.Value, len(cases))
 	err := model(c, modelOpts{module: "TraceGcs", cfg: "TraceGcs.cfg", label: label, workers: 4,
@@ -365,8 +378,9 @@ func newTablePool(key [16]byte, F uint64, density uint64) *tablePool {
 		p.first[i], p.second[i] = -1, -1
 	}
 	K := density*F + 4096
+	buf := make([]byte, 18)
 	for i := uint64(0); i < K; i++ {
-		v := reduce(&p.key, elemOf(uint32(i)), F)
+		v := reduce(&p.key, elemInto(buf, uint32(i)), F)
 		if p.first[v] < 0 {
 			p.first[v] = int32(i)
 		} else if p.second[v] < 0 {
@@ -527,8 +541,9 @@ func newWidePool(key [16]byte, F uint64, P uint8) *widePool {
 		i uint32
 	}
 	all := make([]ve, K)
+	buf := make([]byte, 18)
 	for i := range all {
-		all[i] = ve{reduce(&w.key, elemOf(uint32(i)), F), uint32(i)}
+		all[i] = ve{reduce(&w.key, elemInto(buf, uint32(i)), F), uint32(i)}
 	}
 	sort.Slice(all, func(a, b int) bool { return all[a].v < all[b].v })
 	w.vals = make([]uint64, K)
@@ -730,7 +745,15 @@ func feasibleClass(class string, P uint8, M uint64, n int) bool {
 	return minDelta(class, P) < uint64(n)*M
 }
 
-func runGcs(c *vrun.Ctx) error {
+// gcsPart is what a part contributes to the shared TraceGcs.tla run: its
+// recorded cases and the comparison to make once the specification's
+// expectations are known.
+type gcsPart struct {
+	cases []*gcsCase
+	check func(exp map[int]tla.Value) error
+}
+
+func prepareGcs(c *vrun.Ctx) (*gcsPart, error) {
 	st := newStats()
 	var fe firstErr
 	var shapes []shapeCase
@@ -756,11 +779,11 @@ func runGcs(c *vrun.Ctx) error {
 		return fe.get()
 	})
 	if err != nil {
-		return err
+		return nil, err
 	}
 	bt.flush()
 	if err := fe.get(); err != nil {
-		return err
+		return nil, err
 	}
 	c.Logf("Gcs.tla: %d small-domain filters replayed, %d shapes to realise", st.get("set"), len(shapes))
 
@@ -784,7 +807,7 @@ func runGcs(c *vrun.Ctx) error {
 		}
 		return keys[i].n < keys[j].n
 	})
-	density := uint64(3)
+	density := uint64(2)
 	if c.Thorough {
 		density = 5
 	}
@@ -889,7 +912,7 @@ func runGcs(c *vrun.Ctx) error {
 	}
 	for k := range wanted {
 		if realised[k] == 0 {
-			return fmt.Errorf("gcs: no shape containing class %s could be realised with real elements (vacuity guard)", k)
+			return nil, fmt.Errorf("gcs: no shape containing class %s could be realised with real elements (vacuity guard)", k)
 		}
 	}
 	nShape := len(cases)
@@ -906,56 +929,118 @@ func runGcs(c *vrun.Ctx) error {
 		}
 		cases = append(cases, largeCase(rand.New(rand.NewSource(seed*104729+int64(li))), n, P, M))
 	}
-	sort.SliceStable(cases, func(i, j int) bool { return false })
-	for i, g := range cases {
+	c.Logf("gcs: %d shapes realised with real elements (%d not realisable in their range), %d large multisets", nShape, st.get("shape-not-realisable"), len(cases)-nShape)
+	return &gcsPart{cases: cases, check: func(exp map[int]tla.Value) error {
+		aligns := map[string]bool{}
+		parallel(c, len(cases), func(i int) {
+			g := cases[i]
+			ex := exp[g.id]
+			checkGcs(c, g, ex, st)
+			if g.kind == "small" {
+				st.add("shape")
+				c.Distinct(fmt.Sprintf("gcs/shape/P=%d/M=%d/%s", g.P, g.M, strings.Join(g.shape, ",")))
+				// where the remainders start within a byte, and code words longer than 64 bits
+				sorted := append([]uint64(nil), g.vals...)
+				sort.Slice(sorted, func(a, b int) bool { return sorted[a] < sorted[b] })
+				off, last := uint64(0), uint64(0)
+				mu.Lock()
+				for _, v := range sorted {
+					q := (v - last) >> g.P
+					aligns[fmt.Sprintf("P=%d/rem@%d", g.P, (off+q+1)%8)] = true
+					if q+1+uint64(g.P) > 64 {
+						aligns[fmt.Sprintf("P=%d/word>64bits", g.P)] = true
+					}
+					if (off+q+1)/64 != (off+q+uint64(g.P))/64 {
+						aligns[fmt.Sprintf("P=%d/rem-straddles-64", g.P)] = true
+					}
+					off += q + 1 + uint64(g.P)
+					last = v
+				}
+				mu.Unlock()
+			} else {
+				st.add("large")
+				c.Distinct(fmt.Sprintf("gcs/large/N=%d/P=%d", len(g.data), g.P))
+			}
+		})
+		for _, g := range cases[:min(2, len(cases))] {
+			ex := exp[g.id]
+			c.Sample(map[string]any{"kind": "gcs-shape", "P": g.P, "M": g.M, "shape": g.shape, "values_in_element_order": g.vals,
+				"spec_bytes": fmt.Sprintf("%x", bytesOf(ex.F("data"))), "queries": len(g.queries), "batches": g.batches})
+		}
+		c.SetExtra("gcs_cases", st.export())
+		c.SetExtra("gcs_alignments_covered", len(aligns))
+		c.Logf("GCS cases checked: %s; %d (P, remainder alignment / long word / 64-bit straddle) situations covered", st, len(aligns))
+		return nil
+	}}, nil
+}
+
+// runGcsParts runs the parts that need TraceGcs.tla (the GCS part itself and
+// the BIP158 basic-filter part) with ONE evaluation of the trace module.
+func runGcsParts(c *vrun.Ctx, doGcs, doBasic bool) error {
+	var parts []*gcsPart
+	var mu sync.Mutex
+	var fe firstErr
+	var wg sync.WaitGroup
+	for _, pr := range []struct {
+		on bool
+		f  func(*vrun.Ctx) (*gcsPart, error)
+	}{{doGcs, prepareGcs}, {doBasic, prepareBasic}} {
+		if !pr.on {
+			continue
+		}
+		wg.Add(1)
+		go func(f func(*vrun.Ctx) (*gcsPart, error)) {
+			defer wg.Done()
+			p, err := f(c)
+			fe.set(err)
+			if err == nil {
+				mu.Lock()
+				parts = append(parts, p)
+				mu.Unlock()
+			}
+		}(pr.f)
+	}
+	wg.Wait()
+	if err := fe.get(); err != nil {
+		return err
+	}
+	// order: every large case opens a group of its own (the groups are what
+	// TLC's workers share), the small ones fill up
+	var small, large []*gcsCase
+	for _, p := range parts {
+		for _, g := range p.cases {
+			if g.kind == "large" {
+				large = append(large, g)
+			} else {
+				small = append(small, g)
+			}
+		}
+	}
+	const groupSize = 40 // GroupSize of TraceGcs.tla
+	var all []*gcsCase
+	for _, l := range large {
+		all = append(all, l)
+		n := min(groupSize-1, len(small))
+		all = append(all, small[:n]...)
+		small = small[n:]
+	}
+	all = append(all, small...)
+	for i, g := range all {
 		g.id = i + 1
 	}
-	c.Logf("gcs: %d shapes realised with real elements (%d not realisable in their range), %d large multisets", nShape, st.get("shape-not-realisable"), len(cases)-nShape)
-
-	exp, err := evalGcsTrace(c, "tracegcs", cases)
+	exp, err := evalGcsTrace(c, "tracegcs", all)
 	if err != nil {
 		return err
 	}
-	aligns := map[string]bool{}
-	parallel(c, len(cases), func(i int) {
-		g := cases[i]
-		ex := exp[g.id]
-		checkGcs(c, g, ex, st)
-		if g.kind == "small" {
-			st.add("shape")
-			c.Distinct(fmt.Sprintf("gcs/shape/P=%d/M=%d/%s", g.P, g.M, strings.Join(g.shape, ",")))
-			// where the remainders start within a byte, and code words longer than 64 bits
-			sorted := append([]uint64(nil), g.vals...)
-			sort.Slice(sorted, func(a, b int) bool { return sorted[a] < sorted[b] })
-			off, last := uint64(0), uint64(0)
-			mu.Lock()
-			for _, v := range sorted {
-				q := (v - last) >> g.P
-				aligns[fmt.Sprintf("P=%d/rem@%d", g.P, (off+q+1)%8)] = true
-				if q+1+uint64(g.P) > 64 {
-					aligns[fmt.Sprintf("P=%d/word>64bits", g.P)] = true
-				}
-				if (off+q+1)/64 != (off+q+uint64(g.P))/64 {
-					aligns[fmt.Sprintf("P=%d/rem-straddles-64", g.P)] = true
-				}
-				off += q + 1 + uint64(g.P)
-				last = v
-			}
-			mu.Unlock()
-		} else {
-			st.add("large")
-			c.Distinct(fmt.Sprintf("gcs/large/N=%d/P=%d", len(g.data), g.P))
-		}
-	})
-	for _, g := range cases[:min(2, len(cases))] {
-		ex := exp[g.id]
-		c.Sample(map[string]any{"kind": "gcs-shape", "P": g.P, "M": g.M, "shape": g.shape, "values_in_element_order": g.vals,
-			"spec_bytes": fmt.Sprintf("%x", bytesOf(ex.F("data"))), "queries": len(g.queries), "batches": g.batches})
+	for _, p := range parts {
+		wg.Add(1)
+		go func(p *gcsPart) {
+			defer wg.Done()
+			fe.set(p.check(exp))
+		}(p)
 	}
-	c.SetExtra("gcs_cases", st.export())
-	c.SetExtra("gcs_alignments_covered", len(aligns))
-	c.Logf("GCS cases checked: %s; %d (P, remainder alignment / long word / 64-bit straddle) situations covered", st, len(aligns))
-	return nil
+	wg.Wait()
+	return fe.get()
 }
 
 // replaySet replays one small-domain filter of Gcs.tla (values are small
